@@ -600,4 +600,32 @@ theorem exists_rep {σ : State} (hwf : WF σ) : ∃ a, Rep σ a := by
   refine ⟨(σ.stack.map erase, σ.heap[σ.cur]), hwf, ?_, rfl⟩
   simp [List.getElem?_eq_getElem hlt]
 
+def traceP : PState → List Cell → List (CellResult × Observation)
+  | _, [] => []
+  | a, cl :: cs =>
+    let r := cellP a cl
+    (r.2, obsP r.1) :: traceP r.1 cs
+
+theorem trace_rep {σ : State} {a : PState} (h : Rep σ a) (cs : List Cell) : traceWith true σ cs = traceP a cs := by
+  induction cs generalizing σ a with
+  | nil => rfl
+  | cons cl cs ih =>
+    obtain ⟨h1, h2⟩ := cell_rep h cl
+    simp only [traceWith, traceP, h2, observe_rep h1, ih h1]
+
+theorem traceP_filtered (a : PState) (cs : List Cell) :
+    traceP a (dropFailingP a cs) = (traceP a cs).filter (fun r => !r.1.isFailed) := by
+  induction cs generalizing a with
+  | nil => rfl
+  | cons cl cs ih =>
+    simp only [dropFailingP, traceP]
+    by_cases hf : (cellP a cl).2.isFailed = true
+    · have ha := cellP_failed a cl hf
+      simp only [hf, if_true, List.filter_cons, Bool.not_true, Bool.false_eq_true, if_false]
+      rw [ha]
+      exact ih a
+    · have hf' : (cellP a cl).2.isFailed = false := by simpa using hf
+      simp only [hf', Bool.false_eq_true, if_false, traceP, List.filter_cons, Bool.not_false, if_true]
+      rw [ih]
+
 end Proofs.C22
